@@ -83,7 +83,7 @@ def run(ctx):
             if nv <= 5:
                 ctx.violation('%s on %s: %s; implementation answers "%s"' % (op, ln_[:80], bad, ra[:200]),
                               {'lines': [ln_], 'impl': ra, 'model': b, 'demand': bad}, key='%s:%d:%d:%d' % (op, t, ln, p))
-        if common.proj_framing(ra) != common.proj_framing(b):
+        if common.proj_framing_line(ra, ln_) != common.proj_framing_line(b, ln_):
             ctx.cov['model_vs_impl_disagreements'] += 1
             if not bad:
                 ctx.violation('correspondence broken on %s: implementation "%s", model "%s"' % (ln_[:80], ra[:200], b[:200]),
@@ -106,7 +106,7 @@ def run(ctx):
                     pc = enc.Case(c.fam + '/prefix', c.op, c.buf[:p], [], None, expect='incomplete %d' % (len(c.buf) - p))
                     pref.append(pc)
     common.run_exact(ctx, pref)
-    common.run_differential(ctx, mutants, common.proj_framing)
+    common.run_differential(ctx, mutants, common.proj_framing_line)
     common.lean_failure_violation(ctx, ok)
     return ctx.finish(LEVEL,
         rule='sweep: 256 content types x boundary lengths {0,1,2,3,255,256,16639,16640,16641,32768,65535} x prefixes around every boundary (all prefixes for short records) through the three record parsers, judged by the framing oracle of the property; plus well-formed records of every content type (exact values), strict prefixes (exact Needed), suffixes, length-field corruptions (differential under the framing projection); distinct = (op, type class, length class, prefix class, outcome) resp. (family, outcome shape)',
